@@ -13,12 +13,12 @@ var (
 	profC02 = eng.ProfileFull("C02", map[string]int{"createBatch": 8, "mint": 10, "bridgeReceive": 6, "seal": 5, "addBridgeChain": 2})
 	profC04 = eng.ProfileFull("C04", map[string]int{"retire": 8, "send": 10, "take": 9, "buy": 10})
 	profC06 = func() *eng.Profile {
-		p := eng.ProfileFull("C06", map[string]int{"sell": 14, "updSell": 12, "cancelSell": 6, "buy": 14, "block": 12, "removeDenom": 2, "addDenom": 2, "bulkOrders": 1})
+		p := eng.ProfileFull("C06", map[string]int{"sell": 14, "updSell": 12, "cancelSell": 6, "buy": 14, "block": 12, "removeDenom": 2, "addDenom": 2, "bulkOrders": 1, "bulkBook": 2})
 		p.VestingPct = 10
 		return p
 	}()
 	profC03 = func() *eng.Profile {
-		p := eng.ProfileFull("C03", map[string]int{"sendFromPool": 3, "burnRegen": 2, "buy": 12, "sell": 10, "bankSend": 5, "bulkOrders": 1})
+		p := eng.ProfileFull("C03", map[string]int{"sendFromPool": 3, "burnRegen": 2, "buy": 12, "sell": 10, "bankSend": 5, "bulkOrders": 1, "bulkBook": 1})
 		p.VestingPct = 15
 		return p
 	}()
@@ -33,7 +33,7 @@ var (
 		return p
 	}()
 	profC07 = func() *eng.Profile {
-		p := eng.ProfileFull("C07", map[string]int{"sell": 14, "buy": 22, "setFeeParams": 5, "updSell": 6, "addDenom": 3, "faucet": 2, "put": 3, "take": 3})
+		p := eng.ProfileFull("C07", map[string]int{"sell": 14, "buy": 22, "setFeeParams": 5, "updSell": 6, "addDenom": 3, "faucet": 2, "put": 3, "take": 3, "bulkBook": 2})
 		p.VestingPct = 20
 		return p
 	}()
